@@ -8,6 +8,7 @@ import (
 	"bytes"
 	"context"
 	"fmt"
+	"io"
 	"os"
 	"runtime"
 	"runtime/debug"
@@ -22,6 +23,7 @@ import (
 func c11Worker(w *W) {
 	registerMonitorPlugins()
 	tag := log.RegisterTag("c11tag")
+	log.Stdout = io.Discard // console appenders are part of some configurations; their output is not what C11 looks at
 	ctx := context.Background()
 	inlFile := c11inlFile()
 	type key struct {
@@ -42,6 +44,14 @@ func c11Worker(w *W) {
 		if round%2 == 1 {
 			cfg["logger.lg.type"] = "AsyncLogger"
 			cfg["logger.lg.bufferFullPolicy"] = "Block"
+		}
+		if round >= 4 {
+			// built-in appenders with short file:line widths format the event BEFORE the recording appender sees it: the
+			// location in the record is the statement's, whatever a layout made of it for display
+			delete(cfg, "logger.lg.appenderRef.ref")
+			cfg["appender.con.type"], cfg["appender.con.layout.type"], cfg["appender.con.layout.fileLineLength"] = "Console", "TextLayout", "10"
+			cfg["appender.cj.type"], cfg["appender.cj.layout.type"], cfg["appender.cj.layout.fileLineLength"] = "Console", "JSONLayout", "3"
+			cfg["logger.lg.appenderRef[0].ref"], cfg["logger.lg.appenderRef[1].ref"], cfg["logger.lg.appenderRef[2].ref"] = "con", "cj", "rec"
 		}
 		if err := log.Refresh(cfg); err != nil {
 			w.Violate("C11:refresh-failed", "Refresh failed: "+err.Error(), cfg)
